@@ -1078,3 +1078,25 @@ pub fn gen_delta_ns(r: &mut Rng) -> i128 {
         _ => r.range(-899, 898) as i128 * 1_000_000_000 + r.range(0, 999_999_999) as i128,
     }
 }
+
+/// Rewrite every `%20` in the *path* part of the request target as a literal '+' (a different path by the
+/// reference rules; the same path under the listed quirk D7). Returns false if the path has no encoded space.
+pub fn plus_for_space_in_path(w: &mut Wire) -> bool {
+    let q = w.uri.iter().position(|c| *c == b'?').unwrap_or(w.uri.len());
+    let mut out = Vec::with_capacity(w.uri.len());
+    let mut changed = false;
+    let mut i = 0;
+    while i < q {
+        if i + 2 < q && w.uri[i] == b'%' && w.uri[i + 1] == b'2' && w.uri[i + 2] == b'0' {
+            out.push(b'+');
+            i += 3;
+            changed = true;
+        } else {
+            out.push(w.uri[i]);
+            i += 1;
+        }
+    }
+    out.extend_from_slice(&w.uri[q..]);
+    w.uri = out;
+    changed
+}
